@@ -1,3 +1,4 @@
+import os
 """C16  MSM estimator = function pipeline; spectrum; timescales; propagation."""
 import itertools
 import math
@@ -21,7 +22,7 @@ META = {
     'bounds': {'quick': 'fit vs pipeline: 2 trajectories (lengths 3,2 / 4), 2 states, lag 1..2, trim on/off, sliding on/off, '
                         'builders normalize(no eq)/transpose through the public callable-method API on dense counts; spectrum n<=3 '
                         '(n_eigs, left/right); timescales n=2; ensemble n<=3, steps<=3',
-               'thorough': 'lengths up to 4+3, 3 states; spectrum n<=4'},
+               'thorough': 'fit vs pipeline for length vectors up to 7 frames in <=3 trajectories, lag<=3, 2 states; spectrum n<=3 (n=4: solver unknown, not claimed); ensembles n<=4, <=5 steps'},
     'stubs': ['scipy.linalg.eig = Perron contract', 'COO contract (SymCOO)', 'connected_components contract',
               'aslinearoperator(T).rmatvec(p) = T^T.p', 'log uninterpreted'],
     'assumptions': ['exact real arithmetic', 'builders receive dense counts (method=callable wrapper); sparse container '
@@ -45,6 +46,10 @@ def dense_builder(name):
 
     def method(C):
         Cd = C.toarray() if hasattr(C, 'toarray') else C
+        if core.active() and isinstance(Cd, np.ndarray) and not isinstance(Cd, SArr):
+            # a count matrix without a single symbolic entry comes back from scipy as a plain ndarray; inside a symbolic run
+            # every array is an SArr (type(C)(...) in the builders must see one array type, as the real code does)
+            Cd = SArr.from_typed(Cd)
         if name == 'normalize-noeq':
             return b.normalize(Cd, calculate_eq_probs=False)
         return getattr(b, name)(Cd)
@@ -119,6 +124,9 @@ def fit_job(lengths, S, lag, builder, trim, sliding):
             exp = (dn(exp[0]), dn(exp[1]), dn(exp[2]), dict(exp[3].to_original))
             cfg_ok = (m.config['lag_time'] == lag and m.config['trim'] == trim and m.config['sliding_window'] == sliding)
         except Exception as e:
+            if os.environ.get('VERIF_DEBUG'):
+                import traceback
+                traceback.print_exc()
             exc = e
 
         def compare(got_, exp_, tol=False):
@@ -181,6 +189,9 @@ def spectrum_job(n, n_eigs=None, left=True):
             vl = cells(vals)
             v0 = [_raw(vecs)[i, 0] for i in range(vecs.shape[0])]
         except Exception as e:
+            if os.environ.get('VERIF_DEBUG'):
+                import traceback
+                traceback.print_exc()
             exc = e
         k = n if n_eigs is None else min(n_eigs, n)
 
@@ -257,6 +268,9 @@ def timescales_job(lengths, lag):
             vals, _v = tm.eigenspectrum(T, n_eigs=2)
             expect = -lag / funcs.NP.log(vals[1:])
         except Exception as e:
+            if os.environ.get('VERIF_DEBUG'):
+                import traceback
+                traceback.print_exc()
             exc = e
 
         def witness(model):
@@ -305,6 +319,9 @@ def ensemble_job(n, steps, observable=False):
         try:
             pf, obs_ = sd.synthetic_ensemble(A, P, steps, observable_per_state=O)
         except Exception as e:
+            if os.environ.get('VERIF_DEBUG'):
+                import traceback
+                traceback.print_exc()
             exc = e
 
         def expected(T_, p_, ob_):
@@ -367,9 +384,9 @@ def jobs(tier):
     def add(func, name, **kw):
         J.append(dict(module='harness.C16', func=func, name=name, kwargs=kw, sig_prefix=func, deadline_s=250 if q else 1500,
                       timeout_ms=40000 if q else 200000, tol=1e-5))
-    lens = [(3, 2), (4,)] if q else [(3, 2), (4,), (4, 3), (2, 2, 2)]
+    lens = [(3, 2), (4,)] if q else [(3, 2), (4,), (4, 3), (2, 2, 2), (5,), (3, 3), (2, 1, 3)]
     for L in lens:
-        for lag in (1, 2):
+        for lag in ((1, 2) if q else (1, 2, 3)):
             for builder in ('transpose', 'normalize-noeq'):
                 for trim in (False, True):
                     for sliding in (True, False):
@@ -377,7 +394,7 @@ def jobs(tier):
                             continue
                         add('fit_job', 'fit[%s,lag=%d,%s,trim=%s,sliding=%s]' % (list(L), lag, builder, trim, sliding),
                             lengths=L, S=2, lag=lag, builder=builder, trim=trim, sliding=sliding)
-    for n in ((2, 3) if q else (2, 3, 4)):
+    for n in (2, 3):       # n=4 was tried: every query ends `unknown` (quartic characteristic polynomial), so it is not claimed
         if n <= 2 or not q:
             add('spectrum_job', 'spectrum[n=%d,all,left]' % n, n=n)
         add('spectrum_job', 'spectrum[n=%d,n_eigs=2,left]' % n, n=n, n_eigs=2)
@@ -387,8 +404,8 @@ def jobs(tier):
     add('timescales_job', 'timescales[3,2;lag=1]', lengths=(3, 2), lag=1)
     if not q:
         add('timescales_job', 'timescales[4;lag=1]', lengths=(4,), lag=1)
-    for n in (2, 3):
-        for st in (1, 2, 3):
+    for n in ((2, 3) if q else (2, 3, 4)):
+        for st in ((1, 2, 3) if q else (1, 2, 3, 4, 5)):
             add('ensemble_job', 'ensemble[n=%d,steps=%d]' % (n, st), n=n, steps=st)
         add('ensemble_job', 'ensemble[n=%d,steps=3,observable]' % n, n=n, steps=3, observable=True)
     return J
